@@ -3,6 +3,7 @@
   produce valid renderings (`Rend`) on the decidable fragment `inFrag`.
 -/
 import CedarGoProofs.Lemmas.C07Round
+import CedarGoProofs.Lemmas.C07Like
 import CedarGo.Model.Text.Fragment
 namespace CedarGo.Text
 open CedarGo
@@ -30,6 +31,7 @@ theorem rend_mono {p lvl : Nat} {x : Expr} {ts : List Token} (h : Rend (.e p x) 
   | accessIdx a h hp => exact .accessIdx a h (by omega)
   | hasId a h hp => exact .hasId a h (by omega)
   | hasStr a h hp => exact .hasStr a h (by omega)
+  | like p pt hty hpp h hp => exact .like p pt hty hpp h (by omega)
   | set h => exact .set h
   | record h hn => exact .record h hn
   | callFn hf h => exact .callFn hf h
@@ -150,6 +152,7 @@ theorem rend_head {it : Item} {ts : List Token} (h : Rend it ts) : HeadSpec it t
   | @accessIdx lvl x ts a _ hlvl ih => exact headSpec_postfix _ ih _ _ rfl
   | @hasId lvl x ts a _ hlvl ih => exact headSpec_low _ (by simp) (by omega)
   | @hasStr lvl x ts a _ hlvl ih => exact headSpec_low _ (by simp) (by omega)
+  | @like lvl x ts p pt _ _ _ hlvl ih => exact headSpec_low _ (by simp) (by omega)
   | @set lvl es ts _ _ => exact headSpec_nonint _ _ _ rfl
   | @record lvl kes ts _ hnd _ => exact headSpec_nonint _ _ _ rfl
   | @callFn lvl fn as ts hf _ _ => exact headSpec_nonint _ _ _ rfl
@@ -289,7 +292,14 @@ theorem render_rend (full : Bool) : ∀ (e : Expr), inFrag full e = true → Ren
       exact .hasId a hr (Nat.le_refl _)
     · simp only [hc, Bool.false_eq_true, ↓reduceIte]
       exact .hasStr a hr (Nat.le_refl _)
-  | .like _ _, h => by simp [inFrag] at h
+  | .like e p, h => by
+    simp only [inFrag, Bool.and_eq_true] at h
+    have hr := rend_wrap (render_rend full e h.1) (full || decide (prec e < 4)) 4 wrap_le
+    obtain ⟨t, ht, hty, _, hparse⟩ := patT_roundtrip p h.2
+    have hp : prec (.like e p) = 3 := rfl
+    rw [hp]
+    simp only [render, ht]
+    exact .like p t hty hparse hr (Nat.le_refl _)
   | .is e ty, h => by
     simp only [inFrag, Bool.and_eq_true] at h
     obtain ⟨first, parts, hp⟩ := pathOK_of_isPathName ty h.2
